@@ -272,6 +272,9 @@ def skeleton_graph(name, p):
         return _copies(n0, e0, k)
     if name == "isolated":
         return p, []
+    if name == "core_leaves":
+        # complete core of p atoms, one terminal atom on each (dense core + terminal atoms)
+        return 2 * p, _complete(p) + [(i, p + i) for i in range(p)]
     raise ValueError(name)
 
 
@@ -280,7 +283,7 @@ def fam_skeleton(draw, big=False):
     name = draw(
         st.sampled_from(
             ["cycle", "complete", "bip", "cube", "petersen", "prism", "moebius", "circulant",
-             "icosahedron", "cuboctahedron", "star", "copies", "isolated"]
+             "icosahedron", "cuboctahedron", "star", "copies", "isolated", "core_leaves"]
         )
     )
     hi = 24 if big else 10
@@ -301,6 +304,8 @@ def fam_skeleton(draw, big=False):
         p = draw(st.integers(2, hi))
     elif name == "isolated":
         p = draw(st.integers(1, hi))
+    elif name == "core_leaves":
+        p = draw(st.integers(3, 16))
     elif name == "copies":
         base = draw(st.sampled_from([("cycle", 3), ("cycle", 4), ("cycle", 5), ("cycle", 6), ("complete", 2),
                                      ("complete", 4), ("star", 3), ("bip", (2, 3)), ("isolated", 1), ("prism", 3)]))
@@ -310,6 +315,8 @@ def fam_skeleton(draw, big=False):
     n, edges = skeleton_graph(name, p)
     z = draw(st.sampled_from([6, 6, 6, 5, 7, 14, 15, 26, 1, 118]))
     zs = [z] * n
+    if name == "core_leaves":
+        zs = [z] * p + [draw(st.sampled_from([17, 1, 9]))] * p
     if name == "bip" and draw(st.booleans()):
         z2 = draw(st.sampled_from([1, 8, 17, 9]))
         zs = [z] * p[0] + [z2] * p[1]
@@ -578,6 +585,8 @@ def fam_multi(draw, max_components=40):
     8 components), containing non-isomorphic fragments that colour refinement cannot tell
     apart, identical fragments several times, and small fillers."""
     k = draw(boundary_ints(2, max_components, extra=(8, 9, 12, 13, 14, 16, 17, 32, 33)))
+    if draw(st.integers(0, 11)) == 0:
+        k = draw(st.sampled_from([330, 340, 400]))  # > 1000 atoms in hundreds of components
     zs, edges = [], []
     ncomp = 0
 
